@@ -1190,6 +1190,8 @@ class Evaluator:
             while len(args) < len(sig) and sig[len(args)] in kd:
                 args.append(kd.pop(sig[len(args)]))
             named = sorted(kd.items(), key=lambda kv: kv[0])
+        if f[0] == "global" and f[2] == "assign":
+            f = self._getter_global(f)
         norm = self._norm_call(f, args, named, spreads, live, n)
         if norm is not None:
             return norm
@@ -1221,6 +1223,17 @@ class Evaluator:
 
     def _apply_fn(self, fn, arg_terms):
         """value of fn(*arg_terms) when fn is a lambda / local function with a single return, else the call term"""
+        if fn[0] == "global" and fn[2] == "assign":
+            fn = self._getter_global(fn)
+        if fn[0] == "call" and fn[1] in (("ext", "operator.attrgetter"), ("ext", "operator.itemgetter")) and len(fn[2]) == 1 \
+                and len(arg_terms) == 1 and fn[2][0][0] == "const":
+            if fn[1][1].endswith("attrgetter") and isinstance(fn[2][0][1], str):
+                v = arg_terms[0]
+                for part in fn[2][0][1].split("."):
+                    v = ("attr", v, part)
+                return v
+            if fn[1][1].endswith("itemgetter"):
+                return ("sub", arg_terms[0], fn[2][0])
         if fn[0] == "lambda" and fn[1] in self.lambdas:
             ls = self.lambdas[fn[1]]
             rets = ls.raw_returns
@@ -1228,6 +1241,19 @@ class Evaluator:
                     and not any(e.kind in ("store", "raise", "yield", "delete") for e in ls.events):
                 return subst(rets[0].term, {("param", p): a for p, a in zip(ls.params, arg_terms)})
         return ("call", fn, tuple(arg_terms), ())
+
+    def _getter_global(self, f):
+        """`_get = operator.attrgetter("a.b")` at module level: the term of the getter call it is bound to"""
+        try:
+            modname, name = f[1].split(":")
+            m, node = self.index.need_assign(modname, name)
+        except (AnalysisError, ValueError):
+            return f
+        if isinstance(node, ast.Call) and all(isinstance(a, ast.Constant) for a in node.args) and not node.keywords:
+            fn = self.index.resolve_expr(m, node.func)
+            if fn is not None and fn.kind == "ext" and fn.qual[4:] in ("operator.attrgetter", "operator.itemgetter"):
+                return ("call", ("ext", fn.qual[4:]), tuple(("const", a.value) for a in node.args), ())
+        return f
 
     def _apply_in_loop(self, fn, el, lid, live, n):
         """fn(el) evaluated once per element of loop `lid`: the call is an event of that loop (as in a comprehension)"""
@@ -1301,6 +1327,11 @@ class Evaluator:
                 return NOT(args[0])
             if name == "neg" and len(args) == 1:
                 return ("neg", args[0])
+        # operator.attrgetter("a.b")(x) is x.a.b ; operator.itemgetter(k)(x) is x[k]
+        if f[0] == "call" and f[1] in (("ext", "operator.attrgetter"), ("ext", "operator.itemgetter")) and plain and len(args) == 1:
+            v = self._apply_fn(f, args)
+            if not (v[0] == "call" and v[1] == f):
+                return v
         # rec._replace(f=v) is the record with that field changed
         if f[0] == "attr" and f[2] == "_replace" and not args and not spreads and named and f[1][0] in ("call", "ite") and self._is_record(f[1]):
             def repl(rec):
@@ -1602,6 +1633,7 @@ class Evaluator:
                 sub_map[("elem", nl)] = ival
                 sub_map[("inloop", nl)] = AND(*[("inloop", x) for x in ilids], ilive)
                 post_all = ipost + post_all
+                del self.loops[nl]  # replaced by the inner generator's loops
             else:
                 self.loops[nl].iter = it
 
